@@ -475,13 +475,18 @@ class JsonCommandField(cabc.Sequence):
         queue = self.hist._queue
         queue.append(self)
         with self.hist._cond:
-            self.hist._cond.wait_for(self.i_am_at_the_front)
-            with open(self.hist.filename, newline="\n", encoding="utf-8") as f:
-                lj = xlj.LazyJSON(f, reopen=False)
-                rtn = lj["cmds"][key].get(self.field, self.default)
-                if isinstance(rtn, xlj.LJNode):
-                    rtn = rtn.load()
-            queue.popleft()
+            try:
+                self.hist._cond.wait_for(self.i_am_at_the_front)
+                with open(self.hist.filename, newline="\n", encoding="utf-8") as f:
+                    lj = xlj.LazyJSON(f, reopen=False)
+                    rtn = lj["cmds"][key].get(self.field, self.default)
+                    if isinstance(rtn, xlj.LJNode):
+                        rtn = rtn.load()
+            finally:
+                # Always leave the queue, also when reading failed: a reader left
+                # at the front would block every later flush and read for ever.
+                queue.remove(self)
+                self.hist._cond.notify_all()
         return rtn
 
     def i_am_at_the_front(self):
